@@ -273,3 +273,45 @@ Proof.
   eexists. exists data. split; [reflexivity|].
   unfold get_tcp, set_tcp. simpl. rewrite !mget_mset_eq. reflexivity.
 Qed.
+
+(* ---------------- C04 / C12: handler slots and vanishing packets ---------------- *)
+Theorem tcp_cancel_spec s w :
+  let t := get_tcp w s in
+  let (w', cs) := tcp_cancel s w in
+  cs = post_h (t_recv_h t) [EC_ABORTED; 0; 0; 0] ++ post_h (t_wait_recv_h t) [EC_ABORTED]
+       ++ post_h (t_send_h t) [EC_ABORTED; 0] ++ post_h (t_connect_h t) [EC_ABORTED] /\
+  let t' := get_tcp w' s in
+  t_recv_h t' = None /\ t_wait_recv_h t' = None /\ t_send_h t' = None /\ t_connect_h t' = None.
+Proof.
+  unfold tcp_cancel, tcp_abort_recv, tcp_abort_send, get_tcp, set_tcp. simpl.
+  rewrite !mget_mset_eq. simpl. rewrite <- !app_assoc. repeat split; reflexivity.
+Qed.
+
+Theorem udp_abort_recv_spec s w :
+  let u := get_udp w s in
+  let (w', cs) := udp_abort_recv s w in
+  cs = post_h (u_recv_h u) [EC_ABORTED; 0; 0; 0] ++ post_h (u_wait_recv_h u) [EC_ABORTED] /\
+  u_recv_h (get_udp w' s) = None /\ u_wait_recv_h (get_udp w' s) = None.
+Proof. unfold udp_abort_recv, get_udp, set_udp. simpl. rewrite mget_mset_eq. repeat split; reflexivity. Qed.
+
+Theorem acc_abort_spec a clr w :
+  let t := get_tcp w a in
+  let (w', cs) := acc_abort_handlers a clr w in
+  cs = post_h (a_h t) [EC_ABORTED] ++ (match a_h2 t with Some h => [KPost (TAcceptAbort2 h)] | None => [] end) /\
+  a_h (get_tcp w' a) = None /\ a_h2 (get_tcp w' a) = None.
+Proof.
+  unfold acc_abort_handlers, get_tcp, set_tcp. simpl. rewrite mget_mset_eq.
+  destruct (clr && _); simpl; repeat split; reflexivity.
+Qed.
+
+(* a packet addressed to a socket whose forwarder was detached (close, destroy) vanishes *)
+Theorem detached_forwarder_swallows cx p w : deliver cx None p w = (w, []).
+Proof. reflexivity. Qed.
+
+Theorem close_detaches_forwarder w f : mget SNone (w_sinks (reset_fwd w (Some f))) f = SFwd None.
+Proof. unfold reset_fwd, set_sink. simpl. apply mget_mset_eq. Qed.
+
+(* a drop notification for a socket without a channel is ignored (after the repair) *)
+Theorem drop_after_close_is_ignored v s p w :
+  d11a_drop_guard v = true -> t_chan (get_tcp w s) = None -> tcp_packet_dropped v s p w = (w, []).
+Proof. intros D C. unfold tcp_packet_dropped. rewrite C, D. reflexivity. Qed.
